@@ -2,6 +2,7 @@
 
 Exit codes: 0 held / 1 violation (VIOLATION line printed) / 2 harness error.
 """
+import contextlib
 import hashlib
 import json
 import os
@@ -10,6 +11,7 @@ import time
 import traceback
 import warnings
 
+_DEVNULL = open(os.devnull, "w")
 VERIF = os.path.dirname(os.path.dirname(os.path.abspath(__file__)))
 REPO = os.environ.get("FORSYS_REPO", "/repo")
 
@@ -65,7 +67,7 @@ def _innermost_repo_frame(tb):
 def call(fn, *a, **k):
     """Call into forsys; any exception becomes ForsysCrash (harness bugs are not wrapped: they run outside)."""
     try:
-        with warnings.catch_warnings():
+        with warnings.catch_warnings(), contextlib.redirect_stdout(_DEVNULL):
             warnings.simplefilter("ignore")
             return fn(*a, **k)
     except Exception as e:  # noqa
@@ -248,7 +250,13 @@ def drive(ctx, strategy, check_case, n, label="", seed_offset=0):
 def run_case(ctx, check_case, params, label=""):
     try:
         check_case(params, ctx)
-    except ForsysCrash as c:
+    except Exception as e:
+        if type(e).__name__ == "Degenerate":
+            ctx.skip("generator: degenerate geometry rejected")
+            return
+        if not isinstance(e, ForsysCrash):
+            raise
+        c = e
         ctx.violation(f"crash:{c.kind}@{c.where}", params, observed=str(c), expected="no exception", kind=label)
 
 
